@@ -10,6 +10,16 @@ HOOK_COMMITS = _hook_commits()
 NOT_APPLICABLE = {}
 
 META = {
+    "C01": {
+        "technique": "Lean 4 theorems (scalar round trip, row of scalar columns builds exactly the stated message) + Lean specification writer as round-trip oracle on the real table parser + differential correspondence of the whole table-parser model",
+        "text": "Kernel-checked: every canonical populated scalar written in a cell is read back as exactly that value for all six modelled kinds and all values (C01_scalar_roundtrip, on top of C03's all-n theorems), blank cells are absent, and a data row of scalar columns yields exactly the message its non-blank cells state — each value once, at its field, nothing else (C01_flat_scalars_partial, any number of columns). The full statement (all layouts: vertical/horizontal/in-cell maps and lists, keyed lists, structs, nesting) is decided on every run by the round trip: generated (schema, message) pairs are written as worksheets by the Lean specification Spec.C01.write and converted by the real parser, the oracle demanding exactly the message back; the table-parser model itself is tied to the code by corr.confgen.tableParse.",
+        "note": "Partial: the round-trip THEOREM covers the scalar layer only; aggregates rest on the oracle + correspondence. Trusted: Lean kernel, Spec.C01.write as the reading of the documentation, harness. Not covered: enum/float/well-known/union cells, XLSX container (C08), protogen side (C02).",
+    },
+    "C10": {
+        "technique": "Lean 4 theorems (invariance of the parser's accessors, lifted to whole sheets by induction over data lines) + differential correspondence of the table parser + pair oracle on the real parser",
+        "text": "Kernel-checked on the table-parser model, for every schema, sheet and data: (b) any permutation of the columns (names pairwise distinct) gives the same message or the same error code at the same column name (C10b_acc/C10b_parse/C10b_sheet); (c) inserting blank-named columns anywhere changes nothing (C10c_acc/C10c_sheet, true since fix D14); (a) a sheet and its transposed form with the flag flipped convert identically (C10a_transpose via toCols_transpose). The model (whole confgen table parser for the modelled kinds) is tied to the code by corr.confgen.tableParse (0 differences over generated schemas × grids) and the real parser is judged directly on layout pairs (transpose / permute / pad / blank rows) by corr.confgen.layoutPairs.",
+        "note": "Trusted: Lean kernel; model as far as the streams check it. Known finding D35 (blank rows with present/sequence/fixed/size). Partial: (d) optional-column removal and the protogen transpose half are only exercised, not proved; enums/floats/well-known/unions not modelled.",
+    },
     "C05": {
         "technique": "Lean 4 theorem (deadlock-freedom and invariant preservation of disciplined lock programs under every schedule) + kernel-evaluated discipline obligations over lock programs regenerated from the Go source + watchdog replays",
         "text": "Kernel-checked general theorem: threads whose lock programs obey the discipline (acquire only when nothing is held, every acquisition released, Lock = announce;acquire) can always make progress or have all finished, at every state reachable under every schedule, with Go's writer-preferring RWMutex semantics (C05_deadlock_free, C05_invariant); the shape removed by fix D1 (re-entrant RLock + writer) provably deadlocks (C05_reentrant_rlock_deadlocks). That the code base obeys the discipline is re-established on every run: the extractor type-checks /repo and regenerates the lock program of every function touching a mutex/errgroup/Once (and callers), and five obligations over that data are kernel-evaluated (balanced on every path, at most one lock held, no acquisition under a lock through static calls, no lock across Wait/Once, dynamic calls under lock pinned). Real runs under a watchdog (TypeInfos Get/Put stress; GenProto+GenConf with good/broken refers, repeated calls) are judged by 'the call returned'.",
